@@ -266,7 +266,8 @@ Definition res_ok (glog : list pubT) (r : subres) : Prop :=
 Definition good (c : cfg) : Prop :=
   c_pos c = true /\
   (c_rec c = true -> c_fix_anchor c = true) /\
-  (c_rec c = true -> c_var c = VServer -> c_fix_srvpubs c = true).
+  (c_rec c = true -> c_var c = VServer -> c_fix_srvpubs c = true) /\
+  c_batch c = false.
 
 Lemma max_off_ge : forall l q, In q l -> p_off q <= max_off l.
 Proof.
@@ -316,7 +317,7 @@ Lemma do_merge_ok : forall c h buf r glog,
   (forall p, In p (h_pubs h ++ buf) -> In p glog) ->
   do_merge c h buf = Some r -> res_ok glog r.
 Proof.
-  intros c h buf r glog (Hpos & Hanch & _) Hwf Hprov H.
+  intros c h buf r glog (Hpos & Hanch & _ & _) Hwf Hprov H.
   unfold do_merge in H. rewrite Hpos in H. cbn [negb] in H.
   pose proof (merge_meets_spec (map to_mp (h_pubs h)) (map to_mp buf)) as HM.
   destruct (merge (map to_mp (h_pubs h)) (map to_mp buf)) as [[out maxo] ok].
